@@ -19,7 +19,8 @@ Record kfin := mk_kfin { kf_key : N; kf_gen : option nat }.
    client, deadline already elapsed when the reply was written, instant of the write,
    outcome may depend on which follower wins a re-election *)
 Record pobs := mk_pobs { po_writes : N; po_class : N; po_called : bool;
-                         po_cancelled : bool; po_expired : bool; po_wtime : N; po_racy : bool }.
+                         po_cancelled : bool; po_expired : bool; po_wtime : N; po_racy : bool;
+                         po_end : N (* instant at which the request's serve returned *) }.
 
 (* lab: per query. expectation the fault scripts force (0 either, 1 NOERROR, 2 SERVFAIL),
    writes on its transport, class of the reply (1 NOERROR, 2 SERVFAIL), latency in ms,
@@ -41,7 +42,7 @@ Inductive case :=
              (obs : list pobs) (entered : list bool) (downstream_calls : N) (leased_end inflight_end : N)
   (* fault-script lab against the real resolver (wall-clock): query timeout, observations,
      goroutines above the baseline after the drain *)
-| CaseLab (qt_ms : N) (obs : list lobs) (goroutines_left : N)
+| CaseLab (qt_ms : N) (obs : list lobs) (goroutines_left : N) (slots_held_ms : N)
   (* LazyDeadline under a virtual clock: deadline offset (ms), operations, per-op observation
      (Err / EffectiveError: 0 nil 1 DeadlineExceeded 2 Canceled; Done: 1 closed) *)
 | CaseLazy (deadline : Z) (ops : list lzop) (obs : list N).
@@ -242,6 +243,37 @@ Fixpoint lazy_spec (deadline now_ : Z) (caused : bool) (pinned : N) (ops : list 
   | _, _ => false
   end.
 
+(* arrival instant of every request, read off the timeline *)
+Fixpoint arrivals (evs : list wevent) (now_ : N) : list (nat * N) :=
+  match evs with
+  | [] => []
+  | EAdvance t :: r => arrivals r t
+  | EArrive i :: r => (i, now_) :: arrivals r now_
+  | _ :: r => arrivals r now_
+  end.
+Definition arrival_of (arr : list (nat * N)) (i : nat) : N :=
+  match find (fun p => (fst p =? i)%nat) arr with Some p => snd p | None => 0%N end.
+
+(* nobody waits on nothing: a client that had budget left when it arrived and was answered
+   with the deadline SERVFAIL must have spent the wait behind some OTHER request that was
+   still being served at that instant (its leader); being parked behind a generation whose
+   leader is long gone is the wedge the property excludes *)
+Definition no_idle_wait (rs : list preq) (evs : list wevent) (obs : list pobs) : bool :=
+  let arr := arrivals evs 0 in
+  let idx := seq 0 (length obs) in
+  forallb (fun i =>
+    match nth_error obs i, nth_error rs i with
+    | Some y, Some q =>
+        if (po_class y =? 3)%N && negb (po_cancelled y) && (arrival_of arr i <? q_deadline q)%N
+        then existsb (fun j => negb (j =? i)%nat &&
+                               match nth_error obs j with
+                               | Some z => (arrival_of arr j <=? q_deadline q)%N && (q_deadline q <=? po_end z)%N
+                               | None => false
+                               end) idx
+        else true
+    | _, _ => true
+    end) idx.
+
 Definition check_case (c : case) : bool :=
   match c with
   | CaseWriter ops obs emits =>
@@ -270,7 +302,7 @@ Definition check_case (c : case) : bool :=
       let s := fold_left sevent_step evs (sworld0 rs paths workers qcap cap) in
       pipe_agrees (reqs (s_w s)) (calls (s_w s)) obs dcalls &&
       (N.of_nat (e_leased (s_e s)) =? leased)%N && (inflight =? leased)%N
-  | CaseLab qt obs gleft =>
+  | CaseLab qt obs gleft slots =>
       (* ground truth of the generator: where both name servers can only fail the reply is
          SERVFAIL, where both answer usably it is the answer *)
       forallb (fun o => if (lo_writes o =? 1)%N && negb (lo_cancelled o)
@@ -303,15 +335,15 @@ Definition spec_case (c : case) : bool :=
       forallb (fun y => (po_writes y <=? 1)%N &&
                         (po_cancelled y || (po_writes y =? 1)%N) &&
                         (if (po_class y =? 3)%N then po_expired y else true)) obs &&
-      (length rs =? length obs)%nat && deadlines_ok rs obs
+      (length rs =? length obs)%nat && deadlines_ok rs obs && no_idle_wait rs evs obs
   | CaseServer workers qcap cap rs paths evs obs entered dcalls leased inflight =>
       forallb (fun y => (po_writes y <=? 1)%N &&
                         (if (po_class y =? 3)%N then po_expired y else true)) obs &&
       entered_ok obs entered &&
-      (length rs =? length obs)%nat && deadlines_ok rs obs &&
+      (length rs =? length obs)%nat && deadlines_ok rs obs && no_idle_wait rs evs obs &&
       (* quiescence after the drain: every slab returned, nothing in flight *)
       (leased =? 0)%N && (inflight =? 0)%N
-  | CaseLab qt obs gleft =>
+  | CaseLab qt obs gleft slots =>
       (* one reply, in (generous) time; and a client that stayed, asking for a name whose
          servers both answer usably, is not failed because some OTHER client's request
          (the one it was coalesced with) expired, was cancelled or was refused *)
@@ -319,6 +351,8 @@ Definition spec_case (c : case) : bool :=
                         (lo_latency o <=? 10 * qt)%N &&
                         (if (lo_expect o =? 1)%N && negb (lo_cancelled o) && (lo_writes o =? 1)%N
                          then (lo_class o =? 1)%N else true)) obs &&
-      (gleft =? 0)%N
+      (gleft =? 0)%N &&
+      (* the limiter is quiescent once the clients are answered (one query budget of slack) *)
+      (slots <=? qt)%N
   | CaseLazy deadline ops obs => lazy_spec deadline 0 false 0 ops obs
   end.
